@@ -163,6 +163,31 @@ def exchange (table : Code → Req → Option Req) (c : Client) (f : Fault) : Cl
         | none => { c with server := sv, state := .raisedStreamError }
   | _ => c
 
+/-- a server that checks the job name before the program name: answers a create-program-and-job request for an
+existing job with `jobAlreadyExists` (the other flavour of `serve`; exercises the remaining row of the retry table) -/
+def serveJobFirst (sv : Server) : Req → Server × Reply
+  | .createProgramAndJob => if sv.job then (sv, .error .jobAlreadyExists) else serve sv .createProgramAndJob
+  | r => serve sv r
+
+/-- `exchange` against the job-first server -/
+def exchangeJobFirst (table : Code → Req → Option Req) (c : Client) (f : Fault) : Client :=
+  match c.state with
+  | .running req =>
+    let c := { c with sent := c.sent ++ [req] }
+    match f with
+    | .fatal => { c with state := .raisedFatal }
+    | .breakBefore => { c with state := .running .getResult }
+    | .breakAfter => { c with server := (serveJobFirst c.server req).1, state := .running .getResult }
+    | .none =>
+      let (sv, reply) := serveJobFirst c.server req
+      match reply with
+      | .result => { c with server := sv, state := .done }
+      | .error code =>
+        match table code req with
+        | some next => { c with server := sv, state := .running next }
+        | none => { c with server := sv, state := .raisedStreamError }
+  | _ => c
+
 def runClient (table : Code → Req → Option Req) (sv : Server) (faults : List Fault) : Client :=
   faults.foldl (exchange table) { server := sv, state := .running .createProgramAndJob }
 
